@@ -49,6 +49,10 @@ func c17Universe() []numVal {
 		numVal{"u8_4", uint8(4), rat(4, 1), "int", ""}, numVal{"u_2", uint(2), rat(2, 1), "int", ""}, numVal{"u64_5", uint64(5), rat(5, 1), "int", ""},
 		numVal{"i32_0", int32(0), rat(0, 1), "int", ""}, numVal{"u16_0", uint16(0), rat(0, 1), "int", ""},
 		numVal{"f32_2_5", float32(2.5), rat(5, 2), "float", ""}, numVal{"f32_0", float32(0), rat(0, 1), "float", ""})
+	// float32 operands whose shortest decimal spelling is NOT their value: widening must be exact
+	for _, f := range []float32{0.1, 1 << 31, 1.0 / (1 << 20), 16777216, 3.3, 1e10, -0.7, 123456.79} {
+		out = append(out, numVal{"f32_" + strconv.FormatFloat(float64(f), 'g', -1, 32), f, new(big.Rat).SetFloat64(float64(f)), "float", ""})
+	}
 	for k := int64(-12); k <= 12; k++ {
 		if k%4 == 0 {
 			continue
